@@ -274,7 +274,26 @@ func (f *frame) findLoops() bool {
 	for h := range f.loopHdr {
 		hs = append(hs, h)
 	}
-	sort.Slice(hs, func(i, j int) bool { return posOfBlock(hs[i]) < posOfBlock(hs[j]) })
+	lpos := map[*ssa.BasicBlock]int{}
+	for _, h := range hs {
+		best := int(^uint(0) >> 1)
+		for b := range f.loopHdr[h].body {
+			if p := posOfBlock(b); p < best && p < 1000000*1000 {
+				best = p
+			}
+		}
+		lpos[h] = best
+	}
+	sort.Slice(hs, func(i, j int) bool {
+		if lpos[hs[i]] != lpos[hs[j]] {
+			return lpos[hs[i]] < lpos[hs[j]]
+		}
+		// same first position: the enclosing (larger) loop comes first
+		if len(f.loopHdr[hs[i]].body) != len(f.loopHdr[hs[j]].body) {
+			return len(f.loopHdr[hs[i]].body) > len(f.loopHdr[hs[j]].body)
+		}
+		return hs[i].Index < hs[j].Index
+	})
 	for i, h := range hs {
 		f.loopHdr[h].ordinal = i + 1
 	}
@@ -289,7 +308,7 @@ func posOfBlock(b *ssa.BasicBlock) int {
 		}
 	}
 	if best == int(^uint(0)>>1) {
-		return b.Index * 1000000
+		return 1000000*1000 + b.Index
 	}
 	return best
 }
